@@ -103,7 +103,7 @@ CHECKS["C03"] = dict(
     technique="Coq real-analysis proof (Coquelicot RInt_gen, derivatives) over generated definitions + Interval enclosure",
     design="4/C03")
 CHECKS["C01"] = dict(
-    text=("Theorems (MathComp, all dimensions, any real closed field, 15 obligations) about MatOps-generic definitions regenerated each run by "
+    text=("Theorems (MathComp, all dimensions, any real closed field, 16 obligations) about MatOps-generic definitions regenerated each run by "
           "translate/pymatrix.py from conditional.py/util.py: add_variance diagonal floor; normal equations of the full, DTC and Cholesky-latent "
           "formulations for every noise path (y_is_mean, scalar, vector sigma, supplied factor) with uniqueness; the mean is an affine read-out "
           "and row-local (batch/permutation independence); nine-class table. The SAME generated definitions are executed under a PrimFloat "
